@@ -23,17 +23,18 @@ type accKey struct {
 type Summary struct {
 	Acc    map[accKey]string // -> site of a representative instruction
 	Ret    []Val             // per result
+	RetLoc map[retKey]string // memory a returned value points to directly: (result, location, root) -> site
 	Cb     map[Tag]TagSet    // function-typed parameter / free variable that is invoked -> roots of the arguments it gets
 	API    map[string]bool
 	Spawns bool
 }
 
 func newSummary() *Summary {
-	return &Summary{Acc: map[accKey]string{}, Cb: map[Tag]TagSet{}, API: map[string]bool{}}
+	return &Summary{Acc: map[accKey]string{}, Cb: map[Tag]TagSet{}, API: map[string]bool{}, RetLoc: map[retKey]string{}}
 }
 
 func (s *Summary) size() int {
-	n := len(s.Acc) + len(s.API)
+	n := len(s.Acc) + len(s.API) + len(s.RetLoc)
 	for _, r := range s.Ret {
 		n += len(r[0]) + len(r[1]) + len(r[2])
 	}
@@ -44,6 +45,12 @@ func (s *Summary) size() int {
 		n++
 	}
 	return n
+}
+
+type retKey struct {
+	Idx  int
+	Loc  string
+	Root Tag
 }
 
 type benignKey struct{ Fn, Loc, Via string }
@@ -1376,6 +1383,114 @@ func (fa *funcAnalysis) computeHeld() {
 	}
 }
 
+// ---------------------------------------------------------------- references handed to the caller
+
+// pointeeLoc names the memory a returned value points to directly.
+func pointeeLoc(v ssa.Value) string {
+	switch v.Type().Underlying().(type) {
+	case *types.Slice, *types.Map:
+		return withElems(locOf(v))
+	case *types.Chan:
+		return locOf(v) + "{}"
+	}
+	return locOf(v)
+}
+
+// retLocs records which shared memory result idx may point to (depth 0 only: the object the
+// caller can read or write through the returned reference without any lock).
+func (fa *funcAnalysis) retLocs(idx int, v ssa.Value, seen map[ssa.Value]bool, ins ssa.Instruction) {
+	if v == nil || seen[v] || !hasPointers(v.Type()) {
+		return
+	}
+	if n, ok := v.Type().(*types.Named); ok && n.Obj().Pkg() == nil && n.Obj().Name() == "error" {
+		return // error values are immutable once created
+	}
+	seen[v] = true
+	add := func(loc string, roots TagSet, site string) {
+		if loc == fa.A.syncedM || strings.HasPrefix(loc, "sync.") {
+			return
+		}
+		if os.Getenv("TR_DEBUG_RET") != "" && len(roots.realRoots()) > 0 {
+			fmt.Fprintf(os.Stderr, "retloc %s idx %d loc %s roots %v via %T %s\n", fnName(fa.fn), idx, loc, roots, v, v.String())
+		}
+		for _, r := range roots.realRoots() {
+			k := retKey{idx, loc, r}
+			if old, ok := fa.sum.RetLoc[k]; !ok || site < old {
+				fa.sum.RetLoc[k] = site
+			}
+		}
+	}
+	fromCall := func(c *ssa.Call, ridx int) {
+		ts, opaque, bi := fa.resolve(c.Common())
+		if bi != nil || opaque != nil || len(ts) == 0 {
+			if d := fa.D(v); len(d[0].realRoots()) > 0 {
+				add(pointeeLoc(v), d[0], fa.site(ins))
+			}
+			return
+		}
+		for _, t := range ts {
+			fa.A.need(t.fn)
+			s := fa.A.sum[t.fn]
+			if s == nil {
+				continue
+			}
+			for k, site := range s.RetLoc {
+				if k.Idx == ridx {
+					add(k.Loc, t.mapTag(k.Root), site)
+				}
+			}
+		}
+	}
+	switch x := v.(type) {
+	case *ssa.Phi:
+		for _, e := range x.Edges {
+			fa.retLocs(idx, e, seen, ins)
+		}
+	case *ssa.MakeInterface:
+		fa.retLocs(idx, x.X, seen, ins)
+	case *ssa.ChangeType:
+		fa.retLocs(idx, x.X, seen, ins)
+	case *ssa.ChangeInterface:
+		fa.retLocs(idx, x.X, seen, ins)
+	case *ssa.TypeAssert:
+		fa.retLocs(idx, x.X, seen, ins)
+	case *ssa.Slice:
+		fa.retLocs(idx, x.X, seen, ins)
+	case *ssa.Call:
+		fromCall(x, 0)
+	case *ssa.UnOp:
+		if x.Op == token.MUL {
+			if a, ok := x.X.(*ssa.Alloc); ok {
+				// a result variable (functions with defer keep their results in cells)
+				if ci := fa.A.cell(a); !ci.escapes {
+					same := true
+					for _, st := range ci.stores {
+						if st.g != fa.fn {
+							same = false
+						}
+					}
+					if same {
+						for _, st := range ci.stores {
+							fa.retLocs(idx, st.val, seen, ins)
+						}
+						return
+					}
+				}
+			}
+		}
+		add(pointeeLoc(v), fa.D(v)[0], fa.site(ins))
+	case *ssa.Extract:
+		if c, ok := x.Tuple.(*ssa.Call); ok {
+			fromCall(c, x.Index)
+			return
+		}
+		add(pointeeLoc(v), fa.D(v)[0], fa.site(ins))
+	case *ssa.Const, *ssa.Function, *ssa.MakeClosure:
+	default:
+		add(pointeeLoc(v), fa.D(v)[0], fa.site(ins))
+	}
+}
+
 // ---------------------------------------------------------------- one pass over a function
 
 func (fa *funcAnalysis) run() {
@@ -1433,6 +1548,7 @@ func (fa *funcAnalysis) run() {
 				}
 				for i, r := range x.Results {
 					fa.sum.Ret[i].addVal(fa.D(r))
+					fa.retLocs(i, r, map[ssa.Value]bool{}, ins)
 				}
 			}
 		}
